@@ -28,6 +28,7 @@ def check(c: Check):
         'C09; not token boundaries, here-document bodies or positions.')
     clause_j(c)
     clause_k(c)
+    clause_l(c)
     clause_a(c)
     clause_b(c)
     clause_c(c)
@@ -913,3 +914,66 @@ def clause_k(c: Check):
                              ', stripped' if strip else ''), f.loc())
         c.floor('C09-k', 'users of ' + fname, len(users), 1)
     c.floor('C09-k', 'paths of the rest-of-line string helpers', n, 4)
+
+
+# ---------------------------------------------------------------- l
+def clause_l(c: Check):
+    """EVAL of the step that cuts a string at the next symbol reference (`symbol_syntax._extract_fragment`): whenever
+    the scanner has FOUND a reference `@[NAME]@`, the fragments given back end with the symbol fragment of that name -
+    on every path (a found reference is never turned back into text, whatever stands before it) - and the scan goes
+    on with the text after the reference; when none is found the whole text is one constant."""
+    ix, fo = c.ix, c.fo
+    SS = 'exactly_lib.symbol.symbol_syntax'
+    ef = ix.func(SS + ':_extract_fragment')
+    find = ix.func(SS + ':_find_symbol_reference')
+    frag = ix.cls(SS + ':Fragment')
+    name, rest, pos = Sym('found-name', nullness=False, truth=True), Sym('text-after-the-reference'), Sym('position')
+    pos.neq = (-1,)   # a found reference has a position
+    hooks = ForkHooks(ix, loop_bound=1)
+    hooks.fork_on(lambda d, n, cv: d == find,
+                  [('none', lambda: ListVal([K(-1), K(''), K('')], True)),
+                   ('found', lambda: ListVal([pos, name, rest], True))])
+    hooks.inline_set = {f_ for f_ in ef.module.funcs_by_node.values() if f_.cls is None and f_ is not find and f_ is not ef
+                        and not f_.is_generator}
+    n = 0
+    text = Sym('the-text', nullness=False)
+    for p in util.func_paths(ix, fo, ef, hooks, args={ef.positional_params()[0].arg: text}):
+        labs = labels_of(p)
+        if not labs:
+            continue
+        n += 1
+        c.count()
+        items = None
+        if p.kind == 'return':
+            it_ = Interp(ix, fo, Hooks())
+            items = it_.concrete_items(p.val)
+        c.require(items is not None and len(items) == 2, 'C09-l: the result of _extract_fragment is not a pair (%s)' % (
+            util.describe(p.val) if p.kind == 'return' else p.kind))
+        remainder, frs = items
+        fr_items = Interp(ix, fo, Hooks()).concrete_items(frs)
+        c.require(fr_items is not None, 'C09-l: the fragment list of _extract_fragment is not understood')
+        shapes = []
+        for x in fr_items:
+            con = util.constructed(ix, x)
+            if con is None or con[0] != frag.key:
+                shapes.append(('?', util.describe(x)))
+                continue
+            by = con[3]
+            vals = list(by.values())
+            is_sym = next((v.v for v in vals if isinstance(v, K) and isinstance(v.v, bool)), None)
+            value = next((v for v in vals if not (isinstance(v, K) and isinstance(v.v, bool))), None)
+            shapes.append(('symbol' if is_sym else 'constant', value))
+        if labs == ['found']:
+            ok = bool(shapes) and shapes[-1][0] == 'symbol' and util.root_sym(shapes[-1][1]) is name \
+                and all(k == 'constant' for k, _ in shapes[:-1]) and util.root_sym(remainder) is rest
+            c.expect(ok, 'C09-l', '_extract_fragment/found-reference-is-a-symbol-fragment',
+                     'where the scanner has found a reference the fragments are %s and the scan goes on with %s: the '
+                     'reference is not (only) given back as the symbol fragment of its name, so it is neither '
+                     'substituted nor reported as a reference' % (
+                         [(k, util.describe(v)) for k, v in shapes], util.describe(remainder)), ef.loc())
+        else:
+            ok = len(shapes) == 1 and shapes[0][0] == 'constant' and util.root_sym(shapes[0][1]) is text \
+                and isinstance(remainder, K) and remainder.v == ''
+            c.expect(ok, 'C09-l', '_extract_fragment/no-reference-whole-text-constant',
+                     'without a reference the fragments are %s' % [(k, util.describe(v)) for k, v in shapes], ef.loc())
+    c.floor('C09-l', 'paths of _extract_fragment', n, 3)
